@@ -45,6 +45,43 @@ MISSED_FIRST = {
  "C15-7": "(first 'caught' only through the Miri float false alarm) all contexts were built on the main thread -> every worker also builds a context of its own and evaluates the shared trees against it",
  "C15-9": "(first 'caught' only through the Miri float false alarm) identifiers were all short -> variables and functions with names beyond 16 bytes",
  "C16-7": "no byte-order mark / zero-width prefixes in the strings -> added",
+ "C02-10": "no hex literal ending in e next to a sign in tight form -> token `0x1e`, sweep over the 55-token alphabet in tight rendering",
+ "C02-11": "no chain longer than a dozen operators -> chains of 130-1500 operands per operator",
+ "C02-12": "same -> prefix / assignment / call chains 130-1500 deep",
+ "C03-12": "square root of the overflow boundary was not in the pool -> 3037000499/3037000500, cube roots, and random partners b = MAX / a +- 1",
+ "C04-10": "at most 5 names and 2 functions per context -> contexts with 10-300 variables and 10-200 functions, cleared and re-used",
+ "C04-11": "same -> random histories over 20 names",
+ "C04-12": "no long string among the values -> 350-byte string in the BFS value domain",
+ "C05-10": "sequence elements assigned integers only -> z = 0.0 / z = -0.0 elements",
+ "C05-12": "C05 rendered with single spaces only -> random separator plans (Unicode whitespace, comments) for a quarter of the programs",
+ "C07-10": "no `#`-initial word in the alphabets -> added",
+ "C07-11": "the defect changed every rendering alike -> the canonical rendering is now anchored to the reference parser",
+ "C07-12": "no word containing a backslash -> added",
+ "C08-12": "programs were long but flat -> programs nested 130-330 levels",
+ "C09-10": "no builtin under a foreign namespace among the names -> math::floor, math::min, str::len, sqrt, trim, … must be unknown (C09, C10)",
+ "C09-11": "no call form with an assignment inside the argument -> `n(q = 5)`",
+ "C09-12": "call forms were separated by ASCII blanks -> forms with U+00A0, U+2003, U+000B",
+ "C10-10": "no Greek text in the string pool -> final-sigma and other special-casing strings",
+ "C10-11": "large haystacks held no signed zeros / NaN -> added, with needle lists sized to cross the 1024-comparison mark",
+ "C11-10": "sequences had 2-4 elements -> sequences and argument lists of every size 2..=70",
+ "C11-11": "no byte-order-mark prefix in C11's strings -> added",
+ "C11-12": "no deep tree in C11 -> programs nested 130-330 levels",
+ "C12-10": "no deep nesting in C12's strings -> 130-900 nested parentheses / calls / prefix operators",
+ "C12-11": "no expression naming math::pi / math::e / math::tau (or other plausible pre-seeded names) -> added",
+ "C12-12": "no byte-order-mark prefix -> one string in 25 gets one",
+ "C13-10": "ill-formed sequences were never rendered with comments -> random separator plans for a quarter of them",
+ "C13-11": "the tight renderer kept `1e` away from a sign even where no float can form -> the re-lex check decides alone",
+ "C13-12": "no identifier spelled and / or / not -> added",
+ "C14-11": "C14 rendered without comments -> tight and separator-plan renderings for a quarter of the programs",
+ "C14-12": "identifiers were ASCII or v<n> -> names with non-ASCII characters whose low byte is an operator character",
+ "C16-10": "no source with hundreds of parentheses (nested, in a string, in a comment) -> added",
+ "C16-11": "no CR+LF inside a string literal in the serde corpus -> added",
+ "C16-12": "tuples had at most 3 elements -> tuples of 8-40 elements, numeric ones of mixed kinds",
+ "C06-11": "typographic quotes were in no sample -> 40 quote / slash / star look-alikes and format characters",
+ "C06-12": "no zero-width character inside words -> added to the word alphabet",
+ "C15-10": "clones of shared trees were compared and dropped but not evaluated; no wide node -> 40 / 24 / 20-element nodes, clones are evaluated",
+ "C15-11": "each tree was evaluated ~40 times per round -> all threads hammer one wide literal tuple right after the barrier",
+ "C15-12": "contexts lived for one round -> one context lives through all rounds; an expression calling a slow shared function four times",
  "C16-5": "no failing deserializations; the transport self-check went through evalexpr's own Value -> damaged inputs interleaved, harness-owned mirror type for the self-check",
 }
 out = ["# Seeded changes (independent sub-agents) and what catches them\n",
